@@ -26,8 +26,8 @@ const (
 
 func init() {
 	register(&PropertyDef{
-		ID:    "C03",
-		Title: "Only correctly signed metadata events reach group state and subscribers",
+		ID:          "C03",
+		Title:       "Only correctly signed metadata events reach group state and subscribers",
 		Explanation: "Decides structural necessary conditions from the type-checked SSA of /repo: (D1) the event-type table has an entry for every EventType value except Undefined and each entry's checker is of the kind the reference table (DESIGN.md B.1) requires, the kind being derived from the checker's body, and every prototype given to the device checker implements GetDevicePk; (D2) each checker's success returns are dominated by the accepting side of a Verify on the right key, data and signature; (D3) the open function's success returns are dominated by secretbox.Open accepted, table lookup hit and checker returned nil, and the checked payload is the one unmarshalled from the checked bytes and the one returned; (D4) every use of an opened event (index handlers, emitters, listings) is dominated by the nil-error side of the open call, and GroupMetadataEvent values are only built by the opener chain. It does not decide Ed25519 unforgeability nor that a dropped event leaves the state unchanged beyond 'handler not invoked'.",
 		Trusted:     []string{"golang.org/x/tools go/packages+go/ssa (v0.29.0)", "libp2p crypto.PubKey.Verify and nacl/secretbox semantics", "go/types"},
 		Assumptions: []string{"dependencies behave as documented; only module code is analysed"},
